@@ -2,7 +2,8 @@
 
 Part A: `filter_hypergraph` on Hypergraph / TemporalHypergraph / MultiplexHypergraph / DirectedHypergraph
         vs `C19.filterHg` (lean/Hgxv/Model/C19.lean) + an oracle written from the property's words.
-Part B: `get_svh` vs `C19.svh` (exact rational binomial tail) + an oracle with `fractions.Fraction`."""
+Part B: `get_svh` vs `C19.svh` (exact rational binomial tail) + an oracle with `fractions.Fraction`.
+Part C: `get_svc` vs `C19.svc` (lean/Hgxv/Model/C19C.lean; extension round) + an independent Python reading."""
 import collections
 import decimal
 import functools
@@ -59,7 +60,14 @@ RULE = ("A: random containers of the four types (3-7 nodes, 1-9 records of size 
         "preferring (85%) ranks where counting `p == line` as below would change the validated set; 58% exactly on the "
         "line, the others next to it (alpha (1 +- 1e-6 / 1e-9 / 1e-11), +-1, +-2 ulps); mp=True for 1 case in 90 (quick) / 250 (thorough); distinct by (edges, weights, max_order, "
         "alpha, mp); non-trivial when >=2 sizes are reported and some but not all rows are validated, or >=1 row has "
-        "weight >= 2, or some table's positions below the line are not a prefix")
+        "weight >= 2, or some table's positions below the line are not a prefix. "
+        "C: get_svc on Hypergraphs with 3-10 nodes, 0-7 random hyperedges of size 1-5 (weights 1-5 or unweighted) and in 85% "
+        "a heavy group (weight 2-8) on the last 2-5 nodes, in 60% of those apart from the other hyperedges, sometimes with a "
+        "superset / a subset record of it (validated cores whose sub-groups must not be tested again), 0-2 isolated nodes; labels small ints / "
+        "ints > 256 / run-time strings / ints beyond 2^62, newly made objects; min_order in {0,1,2,3,4,7}, max_order in "
+        "{None,0,1,2,3,4,5,12}, alpha in {0.01,0.05,0.3,0.6,1.0}, positional or keyword arguments; 20 (quick) / 400 "
+        "(thorough) calls from an own PRNG seeded from the run's one after parts A and B; distinct by (edges, weights, "
+        "min_order, max_order, alpha); non-trivial when >= 2 orders have rows and >= 1 group is validated")
 ASSUMPTIONS = ["hyperedges are duplicate-free node tuples; directed ones have disjoint non-empty sides (quantifier)",
                "class invariants of the containers (C01-C04): distinct keys, every node of a key is a node, an unweighted "
                "container has all weights 1",
@@ -74,7 +82,12 @@ ASSUMPTIONS = ["hyperedges are duplicate-free node tuples; directed ones have di
                "hashable (an unhashable value `in` a set is a TypeError of Python, not of the filter)",
                "the caller's criteria objects are unchanged by the call (reported as a violation otherwise: the same criteria "
                "would select differently on their next use)",
-               "get_svh: positive integer weights (quantifier; Python or numpy integers); alpha in (0, 1]"]
+               "get_svh: positive integer weights (quantifier; Python or numpy integers); alpha in (0, 1]",
+               "get_svc (part C, not in the property's sentence; same anchored file and the same p-value / step-up code): an "
+               "order whose groups are all inside validated cores contributes no row to the concatenated frame, so frames are "
+               "matched by the length of their groups; the call raising ValueError (no hyperedge / empty range of orders) is "
+               "the model's `none`; most calls run with statistical_filters.cpu_count patched to 2 workers (pool size has no "
+               "bearing on the result; 1 call in 20 un-instrumented)"]
 TRUSTED = ["scipy.stats.binom.sf is a parameter of the model; compared on every generated row with the binomial tail summed "
            "from the definition in 150-digit decimal arithmetic (self-tested against the exact rational sum on every run): "
            "relative tolerance 1e-9 (+1e-300 for underflow), else the row must lie between the tails for "
@@ -1815,6 +1828,271 @@ def svh_round(ctx, drv, case, h, tag, full=None, out=None):
 
 
 # ---------------------------------------------------------------------------------------------
+# part C: get_svc (statistically validated cores) vs `C19.svc` (extension round)
+
+SVC_KINDS = ("small", "big", "str", "huge")
+
+
+def svc_label(kind, i):
+    """order-preserving label of index i, a newly made object on every call"""
+    if kind == "big":
+        return int(str(1000 + 7 * i))
+    if kind == "str":
+        return "".join(["n", "%02d" % i])
+    if kind == "huge":
+        return int(str(2 ** 62 + i))
+    return i
+
+
+def gen_svc_case(rng):
+    n_nodes = rng.randint(3, 10)
+    weighted = rng.random() < 0.8
+    edges = {}
+    k = rng.randint(2, min(5, n_nodes - 1)) if (rng.random() < 0.85 and n_nodes >= 4) else 0
+    apart = rng.random() < 0.6          # the other hyperedges avoid the nodes of the heavy group
+    pool = range(n_nodes - k) if (apart and n_nodes - k >= 2) else range(n_nodes)
+    for _ in range(rng.choice([0, 1, 2, 3, 3, 4, 5, 6, 7])):
+        j = min(len(pool), rng.choice([1, 2, 2, 3, 3, 3, 4, 4, 5]))
+        e = tuple(sorted(rng.sample(pool, j)))
+        edges[e] = rng.choice([1, 1, 1, 2, 3, 5]) if weighted else 1
+    if k:
+        # a heavy group on the last nodes (+ sometimes a superset / a subset record of it): validated cores whose
+        # sub-groups must not be tested again at the lower orders
+        core = tuple(range(n_nodes - k, n_nodes))
+        edges[core] = rng.randint(2, 8) if weighted else 1
+        if rng.random() < 0.4:
+            edges[tuple(sorted((rng.randrange(0, n_nodes - k),) + core))] = rng.choice([1, 2]) if weighted else 1
+        if rng.random() < 0.4 and k >= 3:
+            edges[core[1:]] = rng.choice([1, 2, 4]) if weighted else 1
+    items = list(edges.items())
+    rng.shuffle(items)
+    return {"part": "svc", "kind": rng.choice(SVC_KINDS), "weighted": weighted,
+            "edges": [[list(e), w] for e, w in items],
+            "min_order": rng.choice([2, 2, 2, 2, 2, 2, 1, 1, 0, 3, 3, 4, 7]),
+            "max_order": rng.choice([None, None, None, None, None, 0, 1, 2, 3, 3, 4, 5, 12]),
+            "alpha": rng.choice([0.01, 0.05, 0.3, 0.6, 1.0, 1.0]),
+            "isolated": [n_nodes + j for j in range(rng.choice([0, 0, 0, 1, 2]))],     # nodes in no hyperedge
+            "kw": rng.random() < 0.5, "pool": "full" if rng.random() < 0.05 else "small"}
+
+
+def svc_expected(E, lo, hi, alpha, pvals):
+    """the docstring's / the code's words, independently of the model, on E = [(rank tuple, weight)] (listing order):
+    per order (descending) the groups in first-seen order with (w, N, ks) and - from the p-values `pvals[(order, g)]`
+    that the implementation reported - the validated flags by the step-up rule; None = the call has to raise.
+    Returns (tables, undecidable?)"""
+    if not E:
+        return None, False
+    longest = max(len(e) for e, _ in E)
+    top = min(hi, longest) if hi else longest
+    orders = list(range(lo, top + 1))[::-1]
+    if not orders:
+        return None, False
+    N = sum(w for _, w in E)
+    K = collections.Counter()
+    for e, w in E:
+        for i in e:
+            K[i] += w
+    na = len(K)
+    valid, tables = [], []
+    import itertools
+    for o in orders:
+        cnt = {}
+        for e, w in E:
+            if len(e) >= o:
+                for g in itertools.combinations(e, o):
+                    if not any(set(g) <= set(v) for v in valid):
+                        cnt[g] = cnt.get(g, 0) + w
+        C = math.comb(na, o)
+        rows = [(g, w, tuple(K[i] for i in g)) for g, w in cnt.items()]
+        ps = [pvals.get((o, g)) for g, _, _ in rows]
+        if any(p is None for p in ps):
+            tables.append((o, N, na, C, rows, None, None))
+            return tables, True                      # the row lists already differ: reported by the caller
+        thr, tight, _, _ = step_up(ps, alpha, C, binom_is_double(na, o))
+        flags = [below(p, thr) for p in ps]
+        tables.append((o, N, na, C, rows, thr, flags))
+        if tight or any(f is None for f in flags):
+            return tables, True
+        valid.extend(g for (g, _, _), f in zip(rows, flags) if f)
+    return tables, False
+
+
+def check_svc(ctx, drv, case):
+    from hypergraphx import Hypergraph
+    from hypergraphx.filters.statistical_filters import get_svc
+    kind, lo, hi, alpha = case["kind"], case["min_order"], case["max_order"], case["alpha"]
+
+    def build():
+        h = Hypergraph(weighted=case["weighted"])
+        for e, w in case["edges"]:
+            h.add_edge(tuple(svc_label(kind, i) for i in e), weight=int(w) if case["weighted"] else None)
+        for i in case.get("isolated") or []:
+            h.add_node(svc_label(kind, i))
+        return h
+
+    h, err = guarded(build)
+    if err:
+        ctx.count("svc_build_failed")
+        return
+    E, err = guarded(lambda: [(tuple(e), int(h.get_weight(e))) for e in h.get_edges()])
+    if err:
+        ctx.count("svc_build_failed")
+        return
+    labels = sorted({svc_label(kind, i) for e, _ in case["edges"] for i in e})
+    rank = {x: i for i, x in enumerate(labels)}
+    E = [(tuple(rank[x] for x in e), w) for e, w in E]
+    key = repr((E, lo, hi, alpha))
+    call = f"get_svc(min_order={lo}, max_order={hi}, alpha={alpha})"
+    # get_svc starts a process pool of cpu_count() workers for every order; most calls run with two workers (the
+    # number of workers has no bearing on the result), 1 in 20 un-instrumented with the machine's number
+    import hypergraphx.filters.statistical_filters as sfm
+    real_cpu_count = getattr(sfm, "cpu_count", None)
+    if case.get("pool") != "full" and real_cpu_count is not None:
+        sfm.cpu_count = lambda: 2
+    try:
+        if case.get("kw"):
+            res, err = guarded(lambda: get_svc(h, min_order=lo, max_order=hi, alpha=alpha), 60)
+        else:
+            res, err = guarded(lambda: get_svc(h, lo, hi, alpha), 60)
+    finally:
+        if real_cpu_count is not None:
+            sfm.cpu_count = real_cpu_count
+    ctx.count("svc_calls")
+    ctx.count("svc_pool_" + ("full" if case.get("pool") == "full" else "two_workers"))
+    raised = err is not None and err.startswith("exc: ValueError")
+    if err and not raised:
+        ctx.case(key, False, sample=case)
+        ctx.violation(case, f"{call} does not return: {err}")
+        return
+    got = None
+    if not raised:
+        try:
+            if list(res.columns) != ["group", "pvalue", "w", "fdr"]:
+                raise ValueError(f"columns {list(res.columns)}")
+            got = []                                    # [(order, [(group, p, w, flag)])] in frame order
+            for g, p, w, f in zip(res["group"], res["pvalue"], res["w"], res["fdr"]):
+                g = tuple(rank[x] for x in g)
+                if not got or got[-1][0] != len(g):
+                    got.append((len(g), []))
+                got[-1][1].append((g, float(p), int(w), bool(f)))
+            for o, rows in got:
+                for g, p, w, f in rows:
+                    if not math.isfinite(p) or not (0.0 <= p <= 1.0 + 1e-9):
+                        raise ValueError(f"p-value of {g} is {p!r}")
+        except Exception as e:  # noqa: BLE001
+            ctx.case(key, False, sample=case)
+            ctx.violation(case, f"result of {call} is not a frame with group/pvalue/w/fdr: {e!r}"[:300])
+            return
+    # ---- oracle (independent Python)
+    pv = {(o, g): Fraction(p) for o, rows in (got or []) for g, p, w, f in rows}
+    want, undecided = svc_expected(E, lo, hi, Fraction(alpha), pv)
+    bad = []
+    if want is None or raised:
+        if (want is None) != raised:
+            bad.append(f"{call} " + ("raises ValueError" if raised else "returns a frame") + ", expected " +
+                       ("an exception (nothing to test)" if want is None else "a frame"))
+    else:
+        # frames of an order whose every group is dropped have no row: skip them on the expected side too
+        exp = [t for t in want if t[4]]
+        if [o for o, _ in got][:len(exp)] != [t[0] for t in exp][:len(got)] or (not undecided and len(got) != len(exp)):
+            bad.append(f"orders in the frame {[o for o, _ in got]}, expected {[t[0] for t in exp]}")
+        for (o, rows), (o2, N, na, C, erows, thr, flags) in zip(got, exp):
+            if bad:
+                break
+            if [r[0] for r in rows] != [r[0] for r in erows]:
+                bad.append(f"order {o}: groups {[r[0] for r in rows]}, expected {[r[0] for r in erows]} "
+                           f"(sub-groups of the hyperedges that are in no validated core of a higher order, first seen first)")
+                break
+            for (g, p, w, f), (_, ew, ks) in zip(rows, erows):
+                if w != ew:
+                    bad.append(f"order {o} group {g}: w = {w}, it is contained in {ew} hyperedge occurrences")
+                ex = tail_exact(ew, N, math.prod(ks), N ** o)
+                if abs(Fraction(p) - ex) > REL * ex + FLOOR:
+                    bad.append(f"order {o} group {g}: p-value {p!r}, P(Bin({N}, prod {ks}/{N}) >= {ew}) = {float(ex)!r}")
+            if flags is None:
+                break
+            for (g, p, w, f), ef in zip(rows, flags):
+                if ef is not None and f != ef:
+                    bad.append(f"order {o} group {g}: validated={f}, p = {p!r}, step-up threshold {float(thr[0])!r}")
+    n_rows = sum(len(r) for _, r in (got or []))
+    n_valid = sum(1 for _, r in (got or []) for x in r if x[3])
+    ctx.count("svc_raises" if raised else "svc_frames")
+    ctx.count("svc_rows", n_rows)
+    ctx.count("svc_rows_validated", n_valid)
+    if undecided:
+        ctx.count("svc_margin_skips")
+    dropped = bool(got) and any(set(g) <= set(v[0]) for o, r in got for v in r if v[3]
+                                for e, _ in E if len(e) >= 1 for g in [e] if len(g) < len(v[0]))
+    if dropped:
+        ctx.count("svc_cases_with_a_hyperedge_inside_a_validated_core")
+    ctx.case(key, bool(got) and len(got) >= 2 and n_valid >= 1, sample=case)
+    for b in bad[:3]:
+        ctx.violation(case, b)
+    if bad or drv is None:
+        return
+    # ---- model
+    line = " ".join(["svc", str(lo), "none" if hi is None else str(hi), hgxv.enc_num(Fraction(alpha)),
+                     hgxv.enc_lists([list(e) for e, _ in E]), hgxv.enc_list([w for _, w in E])])
+    ans = drv.ask(line)
+    if ans == "rej" or raised:
+        if (ans == "rej") != raised:
+            ctx.disagree({**case, "line": line}, f"model answers {ans[:80]!r}, implementation " +
+                         ("raises ValueError" if raised else "returns a frame"))
+        return
+    try:
+        model = []
+        for tok in ([] if ans == "-" else ans.split(" ")):
+            head, *rws = tok.split("@")
+            o, N, na, bonf, thr = head.split(":")
+            rr = []
+            for r in rws:
+                g, ks, w, p, f = r.split("=")
+                rr.append((tuple(hgxv.dec_list(g, "_")), hgxv.dec_list(ks, "_"), int(w), Fraction(p), f == "1"))
+            model.append((int(o), int(N), int(na), Fraction(bonf), Fraction(thr), rr))
+    except Exception as e:  # noqa: BLE001
+        ctx.disagree({**case, "line": line}, f"model answer unreadable: {ans[:200]!r} ({e!r})")
+        return
+    full_orders = [t[0] for t in want]
+    mt = [t for t in model if t[5]]
+    for i, (o, rows) in enumerate(got):
+        if i >= len(mt) or mt[i][0] != o:
+            ctx.disagree({**case, "line": line}, f"orders with rows: model {[t[0] for t in mt]}, implementation {[x[0] for x in got]}")
+            return
+        _, N, na, bonf, thr, rr = mt[i]
+        if [r[0] for r in rr] != [r[0] for r in rows]:
+            ctx.disagree({**case, "line": line}, f"order {o}: model groups {[r[0] for r in rr]}, implementation {[r[0] for r in rows]}")
+            return
+        for (g, ks, w, p, mf), (_, gp, gw, gf) in zip(rr, rows):
+            if w != gw:
+                ctx.disagree({**case, "line": line}, f"order {o} group {g}: model w = {w}, implementation {gw}")
+            if abs(Fraction(gp) - p) > REL * p + FLOOR:
+                ctx.disagree({**case, "line": line}, f"order {o} group {g}: model p = {float(p)!r} (w={w}, N={N}, K={ks}), implementation {gp!r}")
+        # the threshold of the model on the p-values the implementation reported
+        ln = "thr " + hgxv.enc_num(bonf) + " " + hgxv.enc_list([Fraction(r[1]) for r in rows])
+        t, flags = drv.ask(ln).split(" ")
+        flags = [x == 1 for x in hgxv.dec_list(flags)]
+        ethr = want[full_orders.index(o)][5] if o in full_orders else None
+        if ethr is None:
+            return
+        decidable = all(below(Fraction(r[1]), ethr) is not None for r in rows) and not (
+            undecided and o == want[-1][0])
+        if not decidable:
+            return
+        if Fraction(t) != ethr[0]:
+            ctx.disagree({**case, "line": ln}, f"order {o}: model threshold {float(Fraction(t))!r}, step-up rule on the implementation's p-values {float(ethr[0])!r}")
+        for (g, gp, gw, gf), mf in zip(rows, flags):
+            if gf != mf:
+                ctx.disagree({**case, "line": ln}, f"order {o} group {g}: model validated={mf}, implementation {gf}")
+        if [r[4] for r in rr] != [r[3] for r in rows]:
+            ctx.count("svc_model_flags_in_the_rounding_window")      # exact p vs double p within 1e-9 of a line
+            return
+    if len(mt) != len(got) and not undecided:
+        ctx.disagree({**case, "line": line}, f"orders with rows: model {[t[0] for t in mt]}, implementation {[x[0] for x in got]}")
+    if [t[0] for t in model] != full_orders and not undecided:
+        ctx.disagree({**case, "line": line}, f"orders: model {[t[0] for t in model]}, range {full_orders}")
+
+
+# ---------------------------------------------------------------------------------------------
 
 def safely(ctx, f, drv, case):
     """an unexpected exception while evaluating a case comes from an output of the (possibly mutated)
@@ -1847,6 +2125,13 @@ def run(ctx):
         safely(ctx, check_svh, drv, case)
         if ctx.too_many() or (ctx.time_left() is not None and ctx.time_left() < 5):
             break
+    # part C (extension round): its own PRNG, seeded from the run's one after parts A and B took their draws
+    import random
+    rng_c = random.Random(rng.getrandbits(64))
+    for i in range(ctx.scale(20, 400)):
+        safely(ctx, check_svc, drv, gen_svc_case(rng_c))
+        if ctx.too_many() or (ctx.time_left() is not None and ctx.time_left() < 3):
+            break
 
 
 def replay(ctx, case):
@@ -1855,5 +2140,7 @@ def replay(ctx, case):
     case.pop("line", None)
     if case.get("part") == "svh":
         safely(ctx, check_svh, drv, case)
+    elif case.get("part") == "svc":
+        safely(ctx, check_svc, drv, case)
     else:
         safely(ctx, check_filter, drv, case)
